@@ -643,12 +643,48 @@ func collectAliasSites(v reflect.Value, name string, depth int, ptrs map[reflect
 }
 
 // aliasInto introduces up to three aliases into the struct rv (the prior contents of a target).
-func aliasInto(t *rapid.T, rv reflect.Value, label string) []string {
+func aliasInto(t *rapid.T, view *spec.Node, rv reflect.Value, label string) []string {
 	if !coin(t, 1, 3, label+"/alias") {
 		return nil
 	}
 	ptrs, vals, slices := map[reflect.Type][]aliasSite{}, map[reflect.Type][]aliasSite{}, map[reflect.Type][]aliasSite{}
 	collectAliasSites(rv, "", 0, ptrs, vals, slices)
+	// an excluded field is never the destination of an alias: it would then share memory with a described
+	// field, and "left untouched" could not hold for its pointee whatever the converter does
+	excl := map[string]bool{}
+	var walkExcl func(n *spec.Node, depth int)
+	walkExcl = func(n *spec.Node, depth int) {
+		if n == nil || depth > 8 {
+			return
+		}
+		for _, x := range n.Excluded {
+			excl[x.Go] = true
+		}
+		for _, e := range n.Entries {
+			walkExcl(e.Child, depth+1)
+		}
+	}
+	walkExcl(view, 0)
+	lastName := func(name string) string {
+		if i := strings.LastIndex(name, "."); i >= 0 {
+			name = name[i+1:]
+		}
+		if i := strings.Index(name, "["); i >= 0 {
+			name = name[:i]
+		}
+		return name
+	}
+	for _, m := range []map[reflect.Type][]aliasSite{ptrs, slices} {
+		for k, sites := range m {
+			var keep []aliasSite
+			for _, st := range sites {
+				if !excl[lastName(st.name)] {
+					keep = append(keep, st)
+				}
+			}
+			m[k] = keep
+		}
+	}
 	type cand struct {
 		dst  aliasSite
 		src  reflect.Value
